@@ -1,4 +1,188 @@
 import PV.C13.Model
 import PV.C13.Spec
+import PV.C13.Domain
+import PV.C13.Lemmas
+import PV.C13.Linear
+import PV.Common.Proto
+/-
+  C13 — property theorems.  Helper lemmas live in `PV/C13/Lemmas.lean` (line breaks, the indexed
+  locator) and `PV/C13/Linear.lean` (the incremental locator); this file holds the statements a
+  reader should compare with the property text.
+
+  `src` is the UTF-8 byte list of the source.  `LineStartsOk src` is the one consequence of UTF-8
+  validity that is used ("the byte after a line break, and after a leading BOM, starts a character");
+  `validUtf8_lineStartsOk` derives it from a structural validity check.
+  `dbg` selects a build with / without debug assertions and overflow checks; every theorem holds
+  for both.
+-/
 namespace PV.C13
+open PV.C15 PV.C13.Spec
+
+/-! ### the reference counts characters -/
+
+/-- Counting first bytes counts characters: for every list of scalar values, the UTF-8 encoding
+    has exactly one non-continuation byte per character. -/
+theorem codePoints_utf8Encode (cs : List Nat) : codePoints (PV.utf8Encode cs) = cs.length := by
+  unfold PV.utf8Encode codePoints
+  induction cs with
+  | nil => simp
+  | cons c cs ih =>
+    simp only [List.flatMap_cons, List.countP_append, ih, List.length_cons]
+    have : List.countP isLead (PV.utf8EncodeNat c) = 1 := by
+      unfold PV.utf8EncodeNat
+      split
+      next h => simp [isLead, h]
+      · split
+        next h =>
+          have a : ¬ (128 + c % 64 < 128) := by omega
+          have b : ¬ (192 ≤ 128 + c % 64) := by omega
+          simp [isLead, a, b] <;> omega
+        · split
+          next h =>
+            have a1 : ¬ (128 + c / 64 % 64 < 128) := by omega
+            have b1 : ¬ (192 ≤ 128 + c / 64 % 64) := by omega
+            have a2 : ¬ (128 + c % 64 < 128) := by omega
+            have b2 : ¬ (192 ≤ 128 + c % 64) := by omega
+            simp [isLead, List.countP_cons, a1, b1, a2, b2] <;> omega
+          next h =>
+            have a0 : ¬ (128 + c / 4096 % 64 < 128) := by omega
+            have b0 : ¬ (192 ≤ 128 + c / 4096 % 64) := by omega
+            have a1 : ¬ (128 + c / 64 % 64 < 128) := by omega
+            have b1 : ¬ (192 ≤ 128 + c / 64 % 64) := by omega
+            have a2 : ¬ (128 + c % 64 < 128) := by omega
+            have b2 : ¬ (192 ≤ 128 + c % 64) := by omega
+            simp [isLead, List.countP_cons, a0, b0, a1, b1, a2, b2] <;> omega
+    omega
+
+example : codePoints (PV.utf8Encode [0x61, 0xE9, 0x1F600, 0xFEFF]) = 4 := by decide
+
+/-! ### the hypothesis on the text -/
+
+/-- Valid UTF-8 puts every line start, and the offset after a leading BOM, on a character boundary. -/
+theorem validUtf8_lineStartsOk {src : List Nat} (h : validUtf8 src = true) : LineStartsOk src := by
+  have hafter := validUtf8_after_ascii h
+  constructor
+  · intro q hq
+    have hb := breakEnds_bounds hq
+    have hprev := breakEnds_prev hq
+    simp only [Nat.sub_zero] at hprev
+    unfold isBoundary
+    split
+    · rfl
+    · split
+      · rfl
+      · split
+        next c hc =>
+          have e : q - 1 + 1 = q := by omega
+          rcases hprev with hp | hp
+          · have := hafter (q - 1) 10 c hp (by omega) (by rw [e]; exact hc); simp [this]
+          · have := hafter (q - 1) 13 c hp (by omega) (by rw [e]; exact hc); simp [this]
+        next hn =>
+          have : q < src.length := by omega
+          simp [List.getElem?_eq_getElem this] at hn
+  · intro hb
+    unfold startsWithBom at hb
+    split at hb
+    next tail =>
+      have hv : validUtf8 tail = true := by
+        simp [validUtf8] at h; exact h.2
+      cases tail with
+      | nil => simp [isBoundary]
+      | cons t ts => simp [isBoundary, validUtf8_head hv]
+    · simp at hb
+
+example : LineStartsOk [0xEF, 0xBB, 0xBF, 0xC3, 0xA9, 13, 10, 0xF0, 0x9F, 0x98, 0x80, 10] :=
+  validUtf8_lineStartsOk (by decide)
+
+/-! ### the indexed locator -/
+
+/-- `RandomLocator::locate` (`LineIndex::source_location`) returns the reference row and column on
+    every character-boundary offset. -/
+theorem random_eq_spec {src : List Nat} (hs : LineStartsOk src) {off : Nat}
+    (hb : isBoundary src off = true) : randomLocate src off = some (rowCol src off) :=
+  randomLocate_eq_rowCol hs hb
+
+example : randomLocate [0xEF, 0xBB, 0xBF, 0xC3, 0xA9, 13, 10, 0xF0, 0x9F, 0x98, 0x80, 10] 11 = some (2, 2) := by decide
+
+/-! ### the incremental locator -/
+
+/-- Every forward history of `locate` / `locate_only` / `locate_error` calls on a `LinearLocator`
+    returns, call by call, the reference row and column (and never panics). -/
+theorem linear_eq_spec (dbg : Bool) {src : List Nat} (hs : LineStartsOk src) (ops : List Op)
+    (h : Forward src (initCursor src) ops) :
+    run dbg src ops = ops.map (fun op => some (rowCol src op.off)) := by
+  unfold run
+  rw [init_eq_stateAt]
+  exact runFrom_eq hs dbg ops _ (curOk_init hs) h
+
+/-- The form with a plain list of offsets: non-decreasing, in the domain, not inside a leading BOM. -/
+theorem linear_eq_spec_monotone (dbg : Bool) {src : List Nat} (hs : LineStartsOk src) (offs : List Nat)
+    (hmono : offs.Pairwise (· ≤ ·)) (hdom : ∀ o ∈ offs, InDomain src o)
+    (hfirst : ∀ o ∈ offs, initCursor src ≤ o) :
+    run dbg src (offs.map Op.locate) = offs.map (fun o => some (rowCol src o)) := by
+  have hf : ∀ (offs : List Nat) (c : Nat), offs.Pairwise (· ≤ ·) → (∀ o ∈ offs, InDomain src o) →
+      (∀ o ∈ offs, c ≤ o) → Forward src c (offs.map Op.locate) := by
+    intro offs
+    induction offs with
+    | nil => intros; trivial
+    | cons o rest ih =>
+      intro c hp hd hc
+      rw [List.pairwise_cons] at hp
+      exact ⟨hc o (by simp), hd o (by simp),
+        ih o hp.2 (fun x hx => hd x (by simp [hx])) (fun x hx => hp.1 x hx)⟩
+  have := linear_eq_spec dbg hs (offs.map Op.locate) (hf offs _ hmono hdom hfirst)
+  simpa [List.map_map, Function.comp_def, Op.off] using this
+
+/-- The two locators agree on every forward history. -/
+theorem linear_eq_random (dbg : Bool) {src : List Nat} (hs : LineStartsOk src) (ops : List Op)
+    (h : Forward src (initCursor src) ops) (hb : ∀ op ∈ ops, isBoundary src op.off = true) :
+    run dbg src ops = ops.map (fun op => randomLocate src op.off) := by
+  rw [linear_eq_spec dbg hs ops h]
+  apply List.map_congr_left
+  intro op hop
+  rw [random_eq_spec hs (hb op hop)]
+
+/-- `locate_only` never changes the locator's state (whatever it returns). -/
+theorem locateOnly_pure (dbg : Bool) (src : List Nat) (st : St) (off : Nat) :
+    (step dbg src st (.locateOnly off)).2 = st := rfl
+
+/-- a forward history on a text with a BOM, CRLF, a lone CR and multi-byte characters:
+    `é`, CR LF, emoji, CR, `a` -/
+example : Forward [0xEF, 0xBB, 0xBF, 0xC3, 0xA9, 13, 10, 0xF0, 0x9F, 0x98, 0x80, 13, 0x61]
+    (initCursor [0xEF, 0xBB, 0xBF, 0xC3, 0xA9, 13, 10, 0xF0, 0x9F, 0x98, 0x80, 13, 0x61])
+    [.locate 3, .locateOnly 12, .locate 5, .locate 7, .locate 11, .locate 13] := by decide
+
+example : run true [0xEF, 0xBB, 0xBF, 0xC3, 0xA9, 13, 10, 0xF0, 0x9F, 0x98, 0x80, 13, 0x61]
+    [.locate 3, .locateOnly 12, .locate 5, .locate 7, .locate 11, .locate 13]
+    = [some (1, 1), some (3, 1), some (1, 2), some (2, 1), some (2, 2), some (3, 2)] := by decide
+
+/-! ### what the incremental locator needs, and what happens without it -/
+
+/-- The property asks for more: the right answer for the nodes of every tree *whatever order they
+    appear in*, i.e. for every history of boundary offsets. -/
+def linear_any_order_full : Prop :=
+  ∀ (dbg : Bool) (src : List Nat) (ops : List Op), LineStartsOk src →
+    (∀ op ∈ ops, InDomain src op.off) →
+    run dbg src ops = ops.map (fun op => some (rowCol src op.off))
+
+/-- `"a\nb"`: locating offset 2 and then offset 0. A debug build panics on the second call; a
+    release build answers row 2, column 2^32 - 1 where the text says row 1, column 1. -/
+theorem linear_requires_order :
+    run true [0x61, 10, 0x62] [.locate 2, .locate 0] = [some (2, 1), none] ∧
+    run false [0x61, 10, 0x62] [.locate 2, .locate 0] = [some (2, 1), some (2, 4294967295)] ∧
+    rowCol [0x61, 10, 0x62] 0 = (1, 1) := by decide
+
+/-- The recorded call sequence of the real `LinearLocator` on `class A(x=1, *b): pass\n`
+    (fold order: bases before keywords): the sixth call goes back from offset 15 to offset 8. -/
+theorem classdef_keyword_before_starred_base_fails :
+    run true [99, 108, 97, 115, 115, 32, 65, 40, 120, 61, 49, 44, 32, 42, 98, 41, 58, 32, 112, 97, 115, 115, 10]
+      [.locate 0, .locate 13, .locate 14, .locate 15, .locate 15, .locate 8]
+    = [some (1, 1), some (1, 14), some (1, 15), some (1, 16), some (1, 16), none] := by decide
+
+theorem linear_any_order_fails : ¬ linear_any_order_full := by
+  intro h
+  have := h true [0x61, 10, 0x62] [.locate 2, .locate 0] (validUtf8_lineStartsOk (by decide)) (by decide)
+  rw [linear_requires_order.1] at this
+  simp at this
+
 end PV.C13
